@@ -5,6 +5,31 @@ from concurrent.futures import ThreadPoolExecutor
 LEVEL = "proof"
 LIBS = ["RabinLemmas.vo"]
 
+def correspond_slow(res, harness_out, drv):
+    """vpl.correspond with a driver time limit that fits the validity-proof records (about a minute of model arithmetic each
+    on an idle core, much more on a loaded machine); a driver that still runs out of time is retried once."""
+    recs = [l for l in harness_out.split("\n") if l.startswith("REC ")]
+    props = [l for l in harness_out.split("\n") if l.startswith("PROPFAIL ")]
+    text = "\n".join(recs) + "\n"
+    for attempt in (0, 1):
+        rc, out, err = vpl.run_driver(drv, text, timeout=7200)
+        if rc != -9: break
+    mism = [l for l in out.split("\n") if l.startswith("MISMATCH ")]
+    nok = sum(1 for l in out.split("\n") if l.startswith("OK"))
+    if rc != 0 or nok + len(mism) != len(recs):
+        mism.append("MISMATCH driver-failure rc=%d ok=%d mism=%d recs=%d %s" % (rc, nok, len(mism), len(recs), err[-500:]))
+    res.cov["evaluations"] += len(recs)
+    res.cov["distinct_nontrivial"] += len(set(recs))
+    res.cov["disagreements"] += len(mism)
+    d = res.cov.setdefault("record_kinds", {})
+    for l in recs:
+        k = l.split(" ", 2)[1]
+        d[k] = d.get(k, 0) + 1
+    step = max(1, len(recs) // 6)
+    for l in recs[::step][:6]:
+        res.cov["samples"].append(l[:400])
+    return mism, props
+
 def run(res, tier, seed, replay):
     res.cov["rule"] = ("records = real calls of tmcg_g, keyid/keyid_size, sign, verify, encrypt, decrypt, check, import/export of both key "
                        "types on library-generated keys (sizes at the padding minima, random sizes, 1024/2048 in thorough; with and without "
@@ -68,13 +93,13 @@ def run(res, tier, seed, replay):
         return res_
     items = []
     for part, s, out in outs:
-        n = 1 if part == "g" else (3 if tier == "quick" else 4)
+        n = 1 if part == "g" else (3 if tier == "quick" else 6)
         for c in chunks(out, n):
             items.append((part, s, c))
     def corr(item):
         part, s, out = item
         sub = vpl.Result(res.pid, tier, s)
-        mism, props = vpl.correspond(sub, "C10", out, drv)
+        mism, props = correspond_slow(sub, out, drv)
         return part, s, sub, mism, props
     with ThreadPoolExecutor(vpl.NPROC) as ex:
         cs = list(ex.map(corr, items))
